@@ -383,7 +383,7 @@ def rule_r2(ctx, rep):
             rep.add("R2", q, oth[0][0] if oth else "metadata test",
                     f"no test of a node name against names.METADATA ('{meta}')" + (f"; the name is compared with '{oth[0][1]}' instead" if oth else ""),
                     fi.loc(oth[0][0]) if oth else fi.loc())
-    rep.floor("metadata constant sites", 4)
+    rep.floor("metadata constant sites", 3)
 
 
 def rule_r3(ctx, rep):
